@@ -32,6 +32,12 @@ Definition ndt_tacc (a : DateTime.ndt) : R val :=
   Val (VTup [VInt (hour t); VInt (minute t); VInt (second t); VInt (nanosecond t);
              VInt nsfm; val_of_bool pm; VInt h12]).
 
+(** impl Add<Duration> for NaiveDateTime / impl Sub<Duration> for NaiveDateTime (src/naive/datetime/mod.rs) *)
+Definition ndt_add_std (a : DateTime.ndt) (dsecs dnanos : Z) : R DateTime.ndt :=
+  let* rhs := unwrap (from_std dsecs dnanos) in unwrap_r (DateTime.ndt_checked_add_signed a rhs).
+Definition ndt_sub_std (a : DateTime.ndt) (dsecs dnanos : Z) : R DateTime.ndt :=
+  let* rhs := unwrap (from_std dsecs dnanos) in unwrap_r (DateTime.ndt_checked_sub_signed a rhs).
+
 Definition run (op : bytes) (args : list val) : val :=
   let u32_3 (f : Z -> Z -> Z -> val) := match args with
      | [a; b; c] => match arg_u32 a, arg_u32 b, arg_u32 c with Some x, Some y, Some z => f x y z | _, _, _ => VBad end
@@ -52,6 +58,11 @@ Definition run (op : bytes) (args : list val) : val :=
   let t_s (f : ntime -> Z -> Z -> val) := match args with
      | [a; b; c] => match dec_time a, arg_u64 b, arg_u32 c with
                     | Some t, Some s, Some n => if n <? 1000000000 then f t s n else VBad
+                    | _, _, _ => VBad end
+     | _ => VBad end in
+  let n_s (f : DateTime.ndt -> Z -> Z -> val) := match args with
+     | [a; b; c] => match DateTime.dec_ndt a, arg_u64 b, arg_u32 c with
+                    | Some x, Some s, Some n => if n <? 1000000000 then f x s n else VBad
                     | _, _, _ => VBad end
      | _ => VBad end in
   let n_d (f : DateTime.ndt -> td -> val) := match args with
@@ -117,4 +128,10 @@ Definition run (op : bytes) (args : list val) : val :=
     | [a; b] => match arg_u32 a, arg_u32 b with
                 | Some s, Some n => val_of_R enc_time (unwrap (from_num_seconds_from_midnight_opt s n)) | _, _ => VBad end
     | _ => VBad end
+  (* impl Add<Duration> / Sub<Duration> for NaiveDateTime (also behind AddAssign / SubAssign):
+       let rhs = TimeDelta::from_std(rhs).expect(..); self.checked_add_signed(rhs).expect(..) *)
+  else if op_is op "ndt.addstd" then n_s (fun a s n => val_of_R DateTime.enc_ndt (ndt_add_std a s n))
+  else if op_is op "ndt.substd" then n_s (fun a s n => val_of_R DateTime.enc_ndt (ndt_sub_std a s n))
+  else if op_is op "ndt.addstd_assign" then n_s (fun a s n => val_of_R DateTime.enc_ndt (ndt_add_std a s n))
+  else if op_is op "ndt.substd_assign" then n_s (fun a s n => val_of_R DateTime.enc_ndt (ndt_sub_std a s n))
   else VErr B"NOOP".
